@@ -230,4 +230,444 @@ def wrapDecErrContract (hL : LibDecContract L b Dec) (hE : LibDecErrContract hL)
 
 end WrapErr
 
+/-! ### non-vacuity: the toy engine on input that has gone wrong, behind all three interfaces -/
+namespace Toy
+
+theorem decode_one_cons (r : Bytes) : decode (1 :: r) = decodeFrom true r := by
+  cases r with
+  | nil => simp [decode, decodeFrom]
+  | cons b r' => rw [decode_cons_cons]; simp [decodeFrom]
+
+/-- input on which the parser finds nothing wrong is a member followed by something, or can be completed to a member -/
+theorem parse_viable : ∀ (c : Bytes) (i : Bool), (parse i c).2.2.2.2 = false →
+    (∃ k y, decodeFrom i (c.take k) = some y) ∨ (∃ w y, decodeFrom i (c ++ w) = some y) := by
+  intro c
+  induction c with
+  | nil =>
+    intro i _
+    cases i with
+    | false => exact Or.inr ⟨[0], [], by simp [decodeFrom, decode]⟩
+    | true => exact Or.inr ⟨[0, 0], [0], by simp [decodeFrom, decode]⟩
+  | cons h t ih =>
+    intro i hb
+    cases i with
+    | true =>
+      rw [parse_true_cons] at hb
+      rcases ih false hb with ⟨k, y, hk⟩ | ⟨w, y, hw⟩
+      · left
+        refine ⟨k + 1, h :: y, ?_⟩
+        simp only [decodeFrom] at hk
+        simp [decodeFrom, hk]
+      · right
+        refine ⟨w, h :: y, ?_⟩
+        simp only [decodeFrom] at hw
+        simp [decodeFrom, hw]
+    | false =>
+      rw [parse_false_cons] at hb
+      by_cases h0 : h = 0
+      · left
+        exact ⟨1, [], by simp [decodeFrom, decode, h0]⟩
+      · rw [if_neg h0] at hb
+        by_cases h1 : h = 1
+        · rw [if_pos h1] at hb
+          subst h1
+          rcases ih true hb with ⟨k, y, hk⟩ | ⟨w, y, hw⟩
+          · left
+            refine ⟨k + 1, y, ?_⟩
+            simp only [decodeFrom, List.take_succ_cons]
+            rw [decode_one_cons]; exact hk
+          · right
+            refine ⟨w, y, ?_⟩
+            simp only [decodeFrom, List.cons_append]
+            rw [decode_one_cons]; exact hw
+        · rw [if_neg h1] at hb; cases hb
+
+/-- on dead bytes the parser meets a malformed marker -/
+theorem parse_dead {c : Bytes} (hd : Dead decode c) : (parse false c).2.2.2.2 = true := by
+  cases hb : (parse false c).2.2.2.2 with
+  | true => rfl
+  | false =>
+    exfalso
+    rcases parse_viable c false hb with ⟨k, y, hk⟩ | ⟨w, y, hw⟩
+    · exact (hd.2 _ _ (by simpa [decodeFrom] using hk)).2 (IsPre.take _ _)
+    · exact (hd.2 _ _ (by simpa [decodeFrom] using hw)).1 ⟨w, rfl⟩
+
+/-- lengths: consumed and decoded are bounded by the input; a parse that neither ended nor failed consumed everything -/
+theorem parse_len : ∀ (a : Bytes) (i : Bool), (parse i a).1 ≤ a.length ∧ (parse i a).2.1.length ≤ a.length ∧
+    ((parse i a).2.2.2.1 = false → (parse i a).2.2.2.2 = false → (parse i a).1 = a.length) := by
+  intro a
+  induction a with
+  | nil => intro i; rw [parse_nil]; simp
+  | cons h t ih =>
+    intro i
+    cases i with
+    | true =>
+      rw [parse_true_cons]
+      obtain ⟨h1, h2, h3⟩ := ih false
+      refine ⟨by simp only [List.length_cons]; omega, by simp only [List.length_cons]; omega, ?_⟩
+      intro hd hb
+      simp only [List.length_cons]
+      have := h3 hd hb
+      omega
+    | false =>
+      rw [parse_false_cons]
+      by_cases h0 : h = 0
+      · rw [if_pos h0]; simp
+      · rw [if_neg h0]
+        by_cases h1 : h = 1
+        · rw [if_pos h1]
+          obtain ⟨h1', h2, h3⟩ := ih true
+          refine ⟨by simp only [List.length_cons]; omega, by simp only [List.length_cons]; omega, ?_⟩
+          intro hd hb
+          simp only [List.length_cons]
+          have := h3 hd hb
+          omega
+        · rw [if_neg h1]; simp
+
+/-- parsing a concatenation -/
+theorem parse_append_gen : ∀ (a : Bytes) (i : Bool) (b : Bytes),
+    parse i (a ++ b) =
+      if (parse i a).2.2.2.1 = true ∨ (parse i a).2.2.2.2 = true then parse i a
+      else ((parse i a).1 + (parse (parse i a).2.2.1 b).1, (parse i a).2.1 ++ (parse (parse i a).2.2.1 b).2.1,
+            (parse (parse i a).2.2.1 b).2.2.1, (parse (parse i a).2.2.1 b).2.2.2.1, (parse (parse i a).2.2.1 b).2.2.2.2) := by
+  intro a
+  induction a with
+  | nil => intro i b; simp [parse_nil]
+  | cons h t ih =>
+    intro i b
+    cases i with
+    | true =>
+      rw [List.cons_append, parse_true_cons, parse_true_cons, ih false b]
+      by_cases hc : (parse false t).2.2.2.1 = true ∨ (parse false t).2.2.2.2 = true
+      · rw [if_pos hc, if_pos (by simpa using hc)]
+      · rw [if_neg hc, if_neg (by simpa using hc)]
+        simp only [List.cons_append, Prod.mk.injEq, and_true, true_and]
+        omega
+    | false =>
+      rw [List.cons_append, parse_false_cons, parse_false_cons]
+      by_cases h0 : h = 0
+      · simp [h0]
+      · rw [if_neg h0, if_neg h0]
+        by_cases h1 : h = 1
+        · rw [if_pos h1, if_pos h1, ih true b]
+          by_cases hc : (parse true t).2.2.2.1 = true ∨ (parse true t).2.2.2.2 = true
+          · rw [if_pos hc, if_pos (by simpa using hc)]
+          · rw [if_neg hc, if_neg (by simpa using hc)]
+            simp only [Prod.mk.injEq, and_true, true_and]
+            omega
+        · simp [h1]
+
+theorem parse_not_both : ∀ (a : Bytes) (i : Bool), ¬ ((parse i a).2.2.2.1 = true ∧ (parse i a).2.2.2.2 = true) := by
+  intro a
+  induction a with
+  | nil => intro i; rw [parse_nil]; simp
+  | cons h t ih =>
+    intro i
+    cases i with
+    | true => rw [parse_true_cons]; exact ih false
+    | false =>
+      rw [parse_false_cons]
+      by_cases h0 : h = 0
+      · rw [if_pos h0]; simp
+      · rw [if_neg h0]
+        by_cases h1 : h = 1
+        · rw [if_pos h1]; exact ih true
+        · rw [if_neg h1]; simp
+
+/-- the engine's state on input that has gone wrong: it has already failed, or a malformed marker lies ahead; `j` bounds
+what is queued plus what can still be decoded before that marker -/
+def ToyB (s : Dec) (rest : Bytes) (j : Nat) : Prop :=
+  s.bad = true ∨
+  (s.bad = false ∧ s.done = false ∧ (parse s.inData rest).2.2.2.2 = true ∧ (s.fresh = true → s.q = []) ∧
+    s.q.length + (parse s.inData rest).2.1.length ≤ j)
+
+theorem ToyB_nil {s : Dec} {j : Nat} (h : ToyB s [] j) : s.bad = true := by
+  rcases h with h | ⟨_, _, h, _⟩
+  · exact h
+  · rw [parse_nil] at h; cases h
+
+theorem ToyB_enter {s : Dec} {c : Bytes} (hR : DecR s [] []) (hd : Dead decode c) : ToyB s c c.length := by
+  obtain ⟨hb, hp, hf⟩ := hR
+  rw [parse_nil] at hp
+  simp only [Prod.mk.injEq, List.length_nil, List.nil_append, true_and] at hp
+  obtain ⟨hq, hi, hdn, _⟩ := hp
+  right
+  refine ⟨hb, hdn.symm, by rw [← hi]; exact parse_dead hd, fun _ => hq.symm, ?_⟩
+  rw [← hq, ← hi]
+  have := (parse_len c false).2.1
+  simpa using this
+
+/-- one call of the decoding engine on input that has gone wrong -/
+theorem toy_doom_core (P : Params) {s : Dec} {rest : Bytes} {j : Nat} (hB : ToyB s rest j) (hb : s.bad = false)
+    (inp : Bytes) (hin : IsPre inp rest) {room : Nat} (hr : 0 < room) :
+    ∀ c, c = decCore P s inp room →
+    c.bad = true ∨
+    (c.bad = false ∧ c.done = false ∧ c.n ≤ inp.length ∧ c.m ≤ room ∧ c.m ≤ c.q.length ∧
+      (0 < (c.q.drop c.m).length → c.m = room → 0 < c.m) ∧
+      ToyB ⟨c.q.drop c.m, c.inData, c.fresh, c.done, false⟩ (rest.drop c.n) (j - c.m) ∧ c.m ≤ j ∧
+      (inp ≠ [] → c.fresh = false ∧
+        (0 < c.n ∨ (0 < c.m ∧ decPend ⟨c.q.drop c.m, c.inData, c.fresh, c.done, false⟩ < decPend s)))) := by
+  intro c hc
+  rcases hB with h | ⟨_, hdn, hpb, hfq, hj⟩
+  · rw [hb] at h; cases h
+  obtain ⟨z, hz⟩ := hin
+  by_cases hq : s.q.length ≤ P.thresh
+  · -- the engine takes in a chunk
+    have hsplit : rest = inp.take (P.absorb + 1) ++ (inp.drop (P.absorb + 1) ++ z) := by
+      rw [hz, ← List.append_assoc, List.take_append_drop]
+    rcases hpc : parse s.inData (inp.take (P.absorb + 1)) with ⟨n, d, i', dn, bd⟩
+    have hcore := decCore_absorb P inp room hdn hq hpc
+    have happ := parse_append_gen (inp.take (P.absorb + 1)) s.inData (inp.drop (P.absorb + 1) ++ z)
+    rw [← hsplit, hpc] at happ
+    simp only at happ
+    have hnb := parse_not_both (inp.take (P.absorb + 1)) s.inData
+    rw [hpc] at hnb
+    simp only at hnb
+    have hlen := parse_len (inp.take (P.absorb + 1)) s.inData
+    rw [hpc] at hlen
+    simp only at hlen
+    cases hbd : bd with
+    | true => left; rw [hc, hcore]; exact hbd
+    | false =>
+      have hdnf : dn = false := by
+        cases hdd : dn with
+        | false => rfl
+        | true =>
+          exfalso
+          rw [if_pos (Or.inl hdd)] at happ
+          rw [happ] at hpb
+          simp only at hpb
+          exact hnb ⟨hdd, hpb⟩
+      subst hdnf hbd
+      rw [if_neg (by simp)] at happ
+      have hn : n = (inp.take (P.absorb + 1)).length := hlen.2.2 rfl rfl
+      have hdrop : rest.drop n = inp.drop (P.absorb + 1) ++ z := by
+        rw [hsplit, hn, List.drop_left]
+      right
+      rw [hc, hcore]
+      have hm1 : min (min room (P.gran + 1)) (s.q ++ d).length ≤ room := by omega
+      have hm2 : min (min room (P.gran + 1)) (s.q ++ d).length ≤ (s.q ++ d).length := by omega
+      have hbudget : (s.q ++ d).length + (parse i' (inp.drop (P.absorb + 1) ++ z)).2.1.length ≤ j := by
+        rw [happ] at hj
+        simp only [List.length_append] at hj ⊢
+        omega
+      have hmj : min (min room (P.gran + 1)) (s.q ++ d).length ≤ j := by omega
+      refine ⟨rfl, rfl, ?_, hm1, hm2, ?_, ?_, hmj, ?_⟩
+      · show n ≤ inp.length
+        rw [hn, List.length_take]; omega
+      · intro _ h; simp only at h ⊢; omega
+      · right
+        refine ⟨rfl, rfl, ?_, ?_, ?_⟩
+        · show (parse i' (rest.drop n)).2.2.2.2 = true
+          rw [hdrop]
+          rw [happ] at hpb
+          exact hpb
+        · intro hf
+          simp only [Bool.and_eq_true, decide_eq_true_eq] at hf
+          obtain ⟨hsf, hn0⟩ := hf
+          have hd0 : d = [] := by
+            have h0 : (inp.take (P.absorb + 1)).length = 0 := by omega
+            have := List.eq_nil_of_length_eq_zero h0
+            rw [this, parse_nil] at hpc
+            simp only [Prod.mk.injEq] at hpc
+            exact hpc.2.1.symm
+          show (s.q ++ d).drop _ = []
+          rw [hfq hsf, hd0]; simp
+        · show ((s.q ++ d).drop (min (min room (P.gran + 1)) (s.q ++ d).length)).length + (parse i' (rest.drop n)).2.1.length ≤
+            j - min (min room (P.gran + 1)) (s.q ++ d).length
+          rw [hdrop, List.length_drop]
+          omega
+      · intro hne
+        have hpos : 0 < n := by
+          rw [hn, List.length_take]
+          have : 0 < inp.length := by
+            cases inp with
+            | nil => exact absurd rfl hne
+            | cons a b => simp
+          omega
+        refine ⟨?_, Or.inl hpos⟩
+        show (s.fresh && decide (n = 0)) = false
+        have : ¬ n = 0 := by omega
+        simp [this]
+  · -- the engine only hands out
+    have hcore := decCore_blocked P inp room hdn hq
+    right
+    rw [hc, hcore]
+    have hqpos : 0 < s.q.length := by omega
+    have hm1 : min (min room (P.gran + 1)) s.q.length ≤ room := by omega
+    have hm2 : min (min room (P.gran + 1)) s.q.length ≤ s.q.length := by omega
+    have hmpos : 0 < min (min room (P.gran + 1)) s.q.length := by omega
+    have hfr : s.fresh = false := by
+      cases hf : s.fresh with
+      | false => rfl
+      | true =>
+        have := hfq hf
+        rw [this] at hqpos; simp at hqpos
+    have hmj : min (min room (P.gran + 1)) s.q.length ≤ j := by omega
+    refine ⟨rfl, rfl, Nat.zero_le _, hm1, hm2, fun _ _ => hmpos, ?_, hmj, ?_⟩
+    · right
+      refine ⟨rfl, rfl, by simpa using hpb, ?_, ?_⟩
+      · intro hf; simp only at hf; rw [hfr] at hf; cases hf
+      · show (s.q.drop (min (min room (P.gran + 1)) s.q.length)).length + (parse s.inData (rest.drop 0)).2.1.length ≤
+          j - min (min room (P.gran + 1)) s.q.length
+        rw [List.drop_zero, List.length_drop]
+        omega
+    · intro _
+      refine ⟨hfr, Or.inr ⟨hmpos, ?_⟩⟩
+      simp only [decPend, List.length_drop, hfr]
+      omega
+
+theorem toy_take_len {q : Bytes} {m : Nat} (h : m ≤ q.length) : (q.take m).length = m := by
+  rw [List.length_take]; omega
+
+/-- the toy decoder (codec interface) on input that has gone wrong -/
+def decErrContract (P : Params) : DecErrContract (decContract P) where
+  B := ToyB
+  budget := fun n => n
+  enter := by
+    intro s c hR hd
+    exact ToyB_enter hR hd
+  step_none := by
+    intro s rest j hB n room hn hnr hroom r hr
+    have hne : rest.take n ≠ [] := by
+      intro h; have := congrArg List.length h; simp only [List.length_take, List.length_nil] at this; omega
+    have hr' : r = decStep P s (rest.take n) room Flush.none := hr
+    by_cases hb : s.bad = true
+    · left; rw [hr']
+      have : ¬ room = 0 := by omega
+      simp [decStep, this, hb]
+    have hb' : s.bad = false := by cases h : s.bad with | true => exact absurd h hb | false => rfl
+    rcases toy_doom_core P hB hb' (rest.take n) (IsPre.take _ _) hroom _ rfl with hcb | ⟨hcb, hcd, hcn, hmr, hmq, hmpos, hB', hmj, hprog⟩
+    · left
+      rw [hr']
+      have : ¬ room = 0 := by omega
+      simp [decStep, this, hb', hcb]
+    · right
+      rw [decStep_eq P (rest.take n) Flush.none hroom hb' hcb] at hr'
+      obtain ⟨hfr, hpr⟩ := hprog hne
+      generalize decCore P s (rest.take n) room = c at *
+      have hlen : (rest.take n).length = n := by simp [List.length_take]; omega
+      unfold decFinish at hr'
+      have h1 : (c.done && decide ((c.q.drop c.m).length = 0)) = false := by rw [hcd]; rfl
+      simp only [h1, Bool.false_and, Bool.false_eq_true, if_false, show decide (Flush.none = Flush.full) = false from rfl] at hr'
+      have hres : r.st = ⟨c.q.drop c.m, c.inData, c.fresh, c.done, false⟩ ∧ r.consumed = c.n ∧ r.out = c.q.take c.m ∧
+          (r.res = Res.bufferFull → 0 < (c.q.drop c.m).length ∧ c.m = room) ∧ r.res ≠ Res.error := by
+        rw [hr']
+        split
+        · rename_i h
+          simp only [Bool.and_eq_true, decide_eq_true_eq] at h
+          exact ⟨rfl, rfl, rfl, fun _ => h, by simp⟩
+        · exact ⟨rfl, rfl, rfl, (fun h => by cases h), by simp⟩
+      obtain ⟨hst, hco, hout, hbf, _⟩ := hres
+      rw [hst, hco, hout, toy_take_len hmq]
+      refine ⟨hmr, by omega, ⟨j - c.m, hB', by omega⟩, ?_, ?_⟩
+      · intro hf h0
+        obtain ⟨h1, h2⟩ := hbf hf
+        have := hmpos h1 h2
+        have := congrArg List.length h0
+        rw [toy_take_len hmq] at this
+        simp at this; omega
+      · rcases hpr with h | ⟨_, h⟩
+        · exact Or.inl h
+        · right; left
+          exact h
+  step_full := by
+    intro s j hB room hroom r hr
+    left
+    have hb := ToyB_nil hB
+    have hr' : r = decStep P s [] room Flush.full := hr
+    rw [hr']
+    have : ¬ room = 0 := by omega
+    simp [decStep, this, hb]
+
+/-- the toy library behind the zlib / liblzma / libbz2 interface on input that has gone wrong -/
+def decLibErrContract (P : Params) (b : Backend) : LibDecErrContract (decLibContract P b) where
+  B := fun s rest j => ToyB s.eng rest j ∧ (s.total = 0 → rest ≠ [])
+  budget := fun n => n
+  total := by
+    intro s rest j hB h0
+    exact hB.2 h0
+  enter := by
+    intro s c hR hd
+    exact ⟨ToyB_enter hR.1 hd, fun _ => hd.1⟩
+  call := by
+    intro s rest j hB inp room fl hin hroom r hr
+    by_cases hb : s.eng.bad = true
+    · left; left; rw [hr]; simp [decLib, hb]
+    have hb' : s.eng.bad = false := by cases h : s.eng.bad with | true => exact absurd h hb | false => rfl
+    rcases toy_doom_core P hB.1 hb' inp hin hroom _ rfl with hcb | ⟨hcb, hcd, hcn, hmr, hmq, hmpos, hB', hmj, hprog⟩
+    · left; left; rw [hr]; simp [decLib, hb', hcb]
+    · right
+      rw [decLib_call_eq P b s inp room fl hb' hcb] at hr
+      generalize decCore P s.eng inp room = c at *
+      have h1 : (c.done && decide ((c.q.drop c.m).length = 0)) = false := by rw [hcd]; rfl
+      simp only [h1, Bool.false_eq_true, if_false] at hr
+      have hst : r.st = ⟨⟨c.q.drop c.m, c.inData, c.fresh, c.done, false⟩, s.total + c.n⟩ := by rw [hr]
+      have hco : r.consumed = c.n := by rw [hr]
+      have hout : r.out = c.q.take c.m := by rw [hr]
+      have hret : r.ret = if c.n = 0 ∧ c.m = 0 then stuckRet b else LibRet.ok := by rw [hr]
+      rw [hst, hco, hout, toy_take_len hmq, hret]
+      refine ⟨?_, hcn, hmr, ⟨j - c.m, ⟨hB', ?_⟩, by omega⟩, ?_, ?_, ?_⟩
+      · split
+        · unfold stuckRet
+          split
+          · exact Or.inl rfl
+          · rename_i hbz; exact Or.inr ⟨rfl, hbz⟩
+        · exact Or.inl rfl
+      · intro h0
+        simp only at h0
+        have hn0 : c.n = 0 := by omega
+        rw [hn0, List.drop_zero]
+        exact hB.2 (by omega)
+      · intro _ hne
+        rcases (hprog hne).2 with h | ⟨h, _⟩ <;> omega
+      · intro hbuf hnil
+        have hstuck : c.n = 0 ∧ c.m = 0 := by
+          by_cases h : c.n = 0 ∧ c.m = 0
+          · exact h
+          · rw [if_neg h] at hbuf; cases hbuf
+        have hinp : inp = [] := by
+          by_cases hne : inp = []
+          · exact hne
+          · rcases (hprog hne).2 with h | ⟨h, _⟩ <;> omega
+        exact ⟨by rw [hstuck.1, hinp]; rfl, Or.inr hinp⟩
+      · intro hne
+        rcases (hprog hne).2 with h | ⟨_, h⟩
+        · exact Or.inl h
+        · exact Or.inr h
+
+/-- the toy library behind `ZSTD_decompressStream`'s interface on input that has gone wrong -/
+def decZLibErrContract (P : Params) : ZDecErrContract (decZLibContract P) where
+  B := ToyB
+  budget := fun n => n
+  enter := by
+    intro s c hR hd
+    exact ToyB_enter hR.1 hd
+  call := by
+    intro s rest j hB inp room fl hin hroom hcall r hr
+    by_cases hb : s.bad = true
+    · left; rw [hr]; simp [decZLib, hb]
+    have hb' : s.bad = false := by cases h : s.bad with | true => exact absurd h hb | false => rfl
+    have hne : inp ≠ [] := by
+      rcases hcall with h | h
+      · exact h
+      · rw [h] at hB; exact absurd (ToyB_nil hB) hb
+    rcases toy_doom_core P hB hb' inp hin hroom _ rfl with hcb | ⟨hcb, hcd, hcn, hmr, hmq, hmpos, hB', hmj, hprog⟩
+    · left; rw [hr]; simp [decZLib, hb', hcb]
+    · right
+      rw [decZLib_call_eq P s inp room fl hb' hcb] at hr
+      obtain ⟨hfr, hpr⟩ := hprog hne
+      generalize decCore P s inp room = c at *
+      have h1 : (c.done && decide ((c.q.drop c.m).length = 0)) = false := by rw [hcd]; rfl
+      simp only [h1, Bool.false_eq_true, if_false, hfr, Bool.false_and] at hr
+      have hst : r.st = ⟨c.q.drop c.m, c.inData, false, c.done, false⟩ := by rw [hr]
+      have hco : r.consumed = c.n := by rw [hr]
+      have hout : r.out = c.q.take c.m := by rw [hr]
+      have hhint : r.hint = (c.q.drop c.m).length + 1 := by rw [hr]
+      rw [hst, hco, hout, toy_take_len hmq, hhint]
+      refine ⟨hcn, hmr, by omega, ⟨j - c.m, by rw [hfr] at hB'; exact hB', by omega⟩, fun _ => ?_⟩
+      rcases hpr with h | ⟨h, _⟩ <;> omega
+
+end Toy
+
 end Sqfs.Xfrm
